@@ -123,7 +123,7 @@ func restoreRun(o *hx.Out, k int, r *prng.R, mode, lower string, cont map[string
 	o.Add("restore:positions", positions)
 	o.Add("restore:persists-between", persists)
 
-	idx := uint32(r.Range(1, 9))
+	idx := uint32(r.Range(1, 9)) + baseHeight(r, o)
 	m := newTrieMFrom(mode, ps, dst, root)
 	h := newHist(o, k, mode, m)
 	if restoreErr != "" {
